@@ -202,7 +202,8 @@ def gen_fock(r, seed, hbar, what):
             prep.append({"op": "Kgate", "p": [rnd(r, -1, 1)], "m": [r.randrange(n)]})
         else:
             prep.append({"op": "Rgate", "p": [rnd(r, -3, 3)], "m": [r.randrange(n)]})
-    s = {"kind": "fock-" + what, "hbar": hbar, "n": n, "cutoff": D, "pure": r.random() < 0.6, "prep": prep, "product": product, "tape": seed}
+    s = {"kind": "fock-" + what, "hbar": hbar, "n": n, "cutoff": D, "pure": r.random() < 0.6, "prep": prep, "product": product, "tape": seed,
+         "foreign_first": r.random() < 0.3}
     if what == "count":
         ms = r.sample(range(n), r.randint(1, n))
         s["modes"] = ms
@@ -798,9 +799,40 @@ def exec_xsel(script, w):
 
 
 # ------------------------------------------------------------------------------------------------
+def foreign_fock_session(script, w):
+    """another Fock-backend session earlier in the process: other cutoff, other hbar, homodyne and photon counting (fills every per-process
+    cache the Fock simulator keeps: gate matrices, Hermite grids ...)"""
+    import strawberryfields as sf
+    from strawberryfields import ops as sfops
+
+    w.fault("foreign_activity:fock_session_other_cutoff_and_hbar")
+    fb = SeededOutcomes(script["tape"] + 99, w)
+    env_ = SimEnv(w, fb, FaultPlan())
+    saved_hbar = sf.hbar
+    try:
+        sf.hbar = 1.3 if script["hbar"] != 1.3 else 0.7
+        with env_:
+            p = sf.Program(2)
+            with p.context as q:
+                sfops.Fock(1) | q[0]
+                sfops.Sgate(0.1, 0.4) | q[1]
+                sfops.Dgate(0.2, 0.3) | q[0]
+                sfops.BSgate(0.5, 0.2) | (q[0], q[1])
+                sfops.Kgate(0.2) | q[1]
+                sfops.MeasureHomodyne(0.3) | q[0]
+                sfops.MeasureFock() | q[1]
+            env_.engine("fock", {"cutoff_dim": script.get("cutoff", 5) + 2}).run(p)
+    except Exception as ex:  # noqa
+        w.log("foreign_error", exc=type(ex).__name__, msg=str(ex)[:200])
+    finally:
+        sf.hbar = saved_hbar
+
+
 def exec_fock_count(script, w):
     import strawberryfields as sf
 
+    if script.get("foreign_first"):
+        foreign_fock_session(script, w)
     sf.hbar = script["hbar"]
     n, D = script["n"], script["cutoff"]
     ms = script["modes"]
@@ -959,6 +991,8 @@ def exec_fock_count(script, w):
 def exec_fock_hom(script, w):
     import strawberryfields as sf
 
+    if script.get("foreign_first"):
+        foreign_fock_session(script, w)
     sf.hbar = script["hbar"]
     hbar = script["hbar"]
     n, D, mode, phi = script["n"], script["cutoff"], script["mode"], script["phi"]
